@@ -470,9 +470,9 @@ static void esx_cycles(const struct esx_model *m, int Lmax, int reps, uint64_t b
     v_out("INFO model %s cycles: every pattern of 1..%d operations (%" PRIu64 " patterns) x %d repetitions", m->name, L, total, reps);
 }
 
-/* default bounds: patterns of up to 4 operations, 32 repetitions, 3e6 (quick) / 3e7 (thorough) operations per model */
+/* default bounds: patterns of up to 4 operations, 32 repetitions, 3e6 (quick) / 1e7 (thorough) operations per model */
 #ifndef ESX_CYCLES
-#define ESX_CYCLES(m) esx_cycles((m), 4, 32, v_thorough() ? 30000000ull : 3000000ull)
+#define ESX_CYCLES(m) esx_cycles((m), 4, 32, v_thorough() ? 10000000ull : 3000000ull)
 #endif
 
 /* ---- replay: token "<model>:<op.op.op>" ------------------------------------------------------- */
